@@ -28,7 +28,7 @@ RULE = (
 MUST_HIT = ["region_with_partial_last_window", "ch>=3", "sw1", "sw4", "window_of_1_sample",
             "entry_bytes", "entry_region_fn", "entry_region_method", "entry_raw_lazy_file", "entry_wav_lazy_file",
             "entry_wav_file", "entry_stdin_pipe", "empty_input", "start_beyond_one_hour", "hundred_regions", "input_region_with_start",
-            "input_region_with_conflicting_format_kwargs"]
+            "input_region_with_conflicting_format_kwargs", "window_above_65536_samples_uneven_energy"]
 ASSUMPTIONS = [
     "exact energy oracle (vf/oracles.energy_db); synthesized windows lie >= 3 dB from the threshold (self-checked)",
     "reference segmentation (judged on its own by C04)",
@@ -131,7 +131,31 @@ def compare_regions(regions, exp, data, rec, case):
         prev_end = r.start * sr + len(r)
 
 
+def check_bigwin(case, rec_):
+    """Analysis windows of more than 65536 samples whose energy is not evenly spread: 65536 silent
+    samples followed by a loud tail must be judged on the whole window."""
+    W, sr, thr = case["bigwin"]["W"], case["bigwin"]["sr"], case["bigwin"]["thr"]
+    loud, tail = case["bigwin"]["loud"], case["bigwin"]["tail"]
+    b = lambda v, n: bytes([v & 255]) * n  # noqa: E731
+    data = b(0, W) + b(0, W - tail) + b(loud, tail) + b(loud, W) + b(0, W // 3)
+    rec = {"sr": sr, "sw": 1, "ch": 1, "B": W, "uc": None}
+    win = [1, 3, 0, False, False]
+    dec, exp = expected_regions(data, rec, win, thr)
+    if dec != [False, False, True, False]:
+        from ..common import HarnessError
+
+        raise HarnessError(f"big-window member mis-built: decisions {dec}")
+    aw = W / sr
+    for entry in case["bigwin"]["entries"]:
+        kw = dict(min_dur=0.5 * aw, max_dur=3.5 * aw, max_silence=0, analysis_window=aw, energy_threshold=thr)
+        regions = list(run_split(entry, data, rec, kw))
+        compare_regions(regions, exp, data, rec, case)
+    rec_.note(case, True, {"window_above_65536_samples_uneven_energy"}, out=[[s, e] for s, e in exp])
+
+
 def check_case(case, rec_):
+    if "bigwin" in case:
+        return check_bigwin(case, rec_)
     rec, win = case["audio"], case["win"]
     entry = case.get("entry", "bytes")
     data, thr = audio.synth(rec)
@@ -184,6 +208,8 @@ def explicit_cases():
         {"audio": dict(base, sw=2, ch=2, B=5, pat="1", tail=[3, 1], uc=-1), "win": [1, 4, 1, False, False], "entry": "bytes"},
         {"audio": dict(base, ch=1, pat="0" * 36000 + "0110", shape="late_activity"), "win": [1, 3, 0, False, False], "entry": "bytes"},
         {"audio": dict(base, ch=2, sw=2, pat="10" * 120, shape="many_events"), "win": [1, 1, 0, False, False], "entry": "region_fn"},
+        {"bigwin": {"W": 70000, "sr": 16000, "thr": 33.0, "loud": 100, "tail": 4464, "entries": ["bytes", "raw_lazy_file", "wav_file"]}},
+        {"bigwin": {"W": 131072 + 8192, "sr": 8192, "thr": 31.5, "loud": 100, "tail": 8192, "entries": ["region_method"]}},
     ]
 
 
